@@ -168,10 +168,23 @@ pub fn adt_def(u: &Universe, d: &AdtDef) -> String {
     s
 }
 
+/// Definitions whose module starts with `twin` are rendered inside anonymous `const _: () = { .. }` blocks, so
+/// that two *different* types end up with the *same* `core::any::type_name` (`crate::uni::_::T`).
+pub fn is_twin(d: &AdtDef) -> bool {
+    d.module.starts_with("twin")
+}
+
+fn is_twin_ty(u: &Universe, t: &Ty) -> bool {
+    matches!(t, Ty::Adt(i, _) if is_twin(&u.adts[*i]))
+}
+
 /// All definitions, grouped by module, as the contents of `mod uni`.
 pub fn definitions(u: &Universe) -> String {
     let mut by_mod: BTreeMap<&str, Vec<&AdtDef>> = BTreeMap::new();
     for d in &u.adts {
+        if is_twin(d) {
+            continue;
+        }
         by_mod.entry(&d.module).or_default().push(d);
     }
     let mut s = String::new();
@@ -509,7 +522,11 @@ impl<'a> Gen<'a> {
 
 /// The complete `uni.rs` of a subject program: definitions, conversion helpers, layouts, subjects.
 pub fn program(u: &Universe) -> String {
-    let types = u.closure();
+    let types = {
+        let mut nu = u.clone();
+        nu.subjects.retain(|t| !is_twin_ty(u, t));
+        nu.closure()
+    };
     let idx: BTreeMap<Ty, usize> = types.iter().cloned().enumerate().map(|(i, t)| (t, i)).collect();
     let g = Gen { u, idx, types };
     // the ε-copy substitution does not need layouts
@@ -535,8 +552,17 @@ pub fn program(u: &Universe) -> String {
     for k in 0..g.types.len() {
         let _ = writeln!(s, "    lay_{}(&mut l, &mut units);", k);
     }
+    for (j, t) in u.subjects.iter().enumerate() {
+        if is_twin_ty(u, t) {
+            let _ = writeln!(s, "    <Subj{} as voracles::Subject>::extra_layouts(&mut l, &mut units);", j);
+        }
+    }
     s.push_str("    (l, units)\n}\n\n");
     for (j, t) in u.subjects.iter().enumerate() {
+        if is_twin_ty(u, t) {
+            s.push_str(&twin_block(u, j, t, &m));
+            continue;
+        }
         let k = g.k(t);
         let rt = g.r(t);
         let dt_static = m.deser_ty(t).replace("'a", "'static");
@@ -622,4 +648,43 @@ fn seq_section(u: &Universe, g: &Gen) -> String {
     }
     let _ = writeln!(s, "pub fn seqs() -> Vec<voracles::seq::SeqEntry> {{\n    vec![\n{}    ]\n}}\n", entries);
     s
+}
+
+/// A twin subject: its definition, conversion helpers and `Subject` impl inside an anonymous const block.
+fn twin_block(u: &Universe, j: usize, t: &Ty, m: &Model) -> String {
+    let Ty::Adt(i, _) = t else { unreachable!() };
+    let d = &u.adts[*i];
+    let fake = adt_path(u, *i, &[]);
+    // a private universe holding just this subject gives the closure and the helper indices
+    let mut nu = u.clone();
+    nu.subjects = vec![t.clone()];
+    let types = nu.closure();
+    let idx: BTreeMap<Ty, usize> = types.iter().cloned().enumerate().map(|(i, t)| (t, i)).collect();
+    let g = Gen { u, idx, types };
+    let mut b = String::new();
+    b.push_str(&adt_def(u, d));
+    for ty in &g.types {
+        b.push_str(&g.build_fn(ty));
+        b.push_str(&g.full_fn(ty));
+        b.push_str(&g.eps_fn(ty, m));
+    }
+    let k = g.k(t);
+    let rt = g.r(t);
+    let dt_static = m.deser_ty(t).replace("'a", "'static");
+    let mut lay = String::new();
+    for ty in &g.types {
+        lay.push_str(&g.layout_stmt(ty));
+    }
+    let _ = writeln!(
+        b,
+        "impl voracles::Subject for Subj{j} {{\n    type T = {rt};\n    const NAME: &'static str = {rt:?};\n    const INDEX: usize = {j};\n    fn build(v: &Val) -> Self::T {{ b_{k}(v) }}\n    fn full_to_val(x: &Self::T) -> Val {{ f_{k}(x) }}\n    fn eps_to_val<'a>(x: &<Self::T as epserde::deser::DeserializeInner>::DeserType<'a>, s: &mut Borrows) -> Val {{ e_{k}(x, s) }}\n    fn deser_type_is_documented() -> bool {{ core::any::TypeId::of::<<Self::T as epserde::deser::DeserializeInner>::DeserType<'static>>() == core::any::TypeId::of::<{dt_static}>() }}\n    fn ser_type_is_self() -> bool {{ core::any::TypeId::of::<<Self::T as epserde::ser::SerializeInner>::SerType>() == core::any::TypeId::of::<{rt}>() }}\n    fn extra_layouts(l: &mut Layouts, units: &mut BTreeMap<String, usize>) {{\n{lay}    }}\n}}",
+        j = j,
+        rt = rt,
+        k = k,
+        dt_static = dt_static,
+        lay = lay
+    );
+    // inside the block the type is reachable by its bare name only; string literals (NAME, layout keys) keep the unique fake path
+    let code = b.replace(&format!("{:?}", fake), "\u{1}FAKE\u{1}").replace(&fake, &d.name).replace("\u{1}FAKE\u{1}", &format!("{:?}", fake));
+    format!("pub struct Subj{};\nconst _: () = {{\n{}\n}};\n\n", j, code)
 }
